@@ -68,6 +68,26 @@ theorem C05_retSpec_fuel_irrelevant (conv : U32) (f : Nat) (d : Bytes) (h : d.le
     retSpec conv f d = retSpec conv (d.length / IKCP_OVERHEAD + 1) d :=
   retSpec_fuel conv f _ d h (Nat.lt_succ_self _)
 
+/-- the iteration bound of the model's parse loop is an artefact: any bound above `|d|/24` gives the
+same result (the Go loop has none; it ends when fewer than 24 bytes remain) -/
+theorem C05_inputLoop_fuel_irrelevant (regular : Bool) (f : Nat) (d : Bytes) (st : InLoop)
+    (h : d.length / IKCP_OVERHEAD < f) :
+    inputLoop regular f d st = inputLoop regular (d.length / IKCP_OVERHEAD + 1) d st :=
+  inputLoop_fuel regular f _ d st h (Nat.lt_succ_self _)
+
+/-- a datagram whose FIRST header is rejected (too short, foreign conversation, truncated/oversize
+payload, unknown command) leaves the state untouched and emits nothing — in any state -/
+theorem C05_input_reject_first_noop (k : Kcp) (d : Bytes) (regular ackNoDelay : Bool) (now : U32)
+    (h : d.length < IKCP_OVERHEAD ∨ rd32 d 0 ≠ k.conv ∨ badLen d ∨ badCmd d) :
+    (input k d regular ackNoDelay now).k = k ∧ (input k d regular ackNoDelay now).outs = [] ∧
+    (input k d regular ackNoDelay now).ret < 0 :=
+  input_reject_first k d regular ackNoDelay now h
+
+/-- a rejected datagram never makes the core transmit — in any state -/
+theorem C05_input_rejected_silent (k : Kcp) (d : Bytes) (regular ackNoDelay : Bool) (now : U32)
+    (h : (input k d regular ackNoDelay now).ret < 0) : (input k d regular ackNoDelay now).outs = [] :=
+  input_neg_outs k d regular ackNoDelay now h
+
 /-- first header carries a foreign conversation id: `−1` -/
 theorem C05_input_ret_conv (k : Kcp) (d : Bytes) (r n : Bool) (now : U32)
     (h1 : ¬ d.length < IKCP_OVERHEAD) (h2 : rd32 d 0 ≠ k.conv) : (input k d r n now).ret = -1 := by
